@@ -44,6 +44,11 @@ structure Loop where
   viewFresh : Bool := false
   overlays : Nat := 0
   reenc : Nat := 0
+  /-- the decoded file and its tree pages as they were when the pending commit's overlay was dumped -/
+  preView : Option (BucketView × List Nat) := none
+  lastTreeReach : List Nat := []
+  pagesPredicted : Nat := 0
+  commitsSinceView : Nat := 0
   /-- a fault was armed for the next commit (C11) -/
   faultArmed : Bool := false
   /-- after a commit that returned an I/O error: the state before it (the model holds the state after it) -/
@@ -58,7 +63,7 @@ def Loop.endHist (l : Loop) : IO Unit := do
     match l.proto with
     | some p => IO.println s!"PROTO {l.cur} commits-checked={p.checked} maxNonFree={p.maxNonFree} maxGrowth={p.maxReq} numPages={p.sys.numPages} invariant=ok"
     | none => pure ()
-    if l.layerC > 0 || l.overlays > 0 || l.reenc > 0 then IO.println s!"STAT layerc_buckets_compared={l.layerC} layerc_rebalance_steps_replayed={l.layerCSteps} overlay_trees_predicted={l.overlays} pages_reencoded={l.reenc}"
+    if l.layerC > 0 || l.overlays > 0 || l.reenc > 0 then IO.println s!"STAT layerc_buckets_compared={l.layerC} layerc_rebalance_steps_replayed={l.layerCSteps} overlay_trees_predicted={l.overlays} pages_reencoded={l.reenc} commits_whose_freed_pages_were_predicted={l.pagesPredicted}"
     if !l.failed || l.refused then IO.println s!"RESULT {l.cur} OK ops={l.nOps}"
 
 /-- one transcript line -/
@@ -78,7 +83,7 @@ def stepLine (l : Loop) (line : String) : IO Loop := do
   if op == "hist" then
     l.endHist
     return { l with st := {}, cur := f.getD 1 "?", nOps := 0, failed := false, nHist := l.nHist + 1,
-                    proto := none, lastFile := none, commitsSinceFile := 0, protoOff := false, refused := false, pretrees := [], notes := none, layerC := 0, layerCSteps := 0, lastView := none, viewFresh := false, overlays := 0, reenc := 0 }
+                    proto := none, lastFile := none, commitsSinceFile := 0, protoOff := false, refused := false, pretrees := [], notes := none, layerC := 0, layerCSteps := 0, lastView := none, viewFresh := false, overlays := 0, reenc := 0, preView := none, lastTreeReach := [], pagesPredicted := 0, commitsSinceView := 0 }
   if l.failed then return l
   let r := stepOp l.st f
   let l := { l with cnt := bump l.cnt (op ++ "/" ++ outcomeClass got) }
@@ -116,7 +121,8 @@ def stepLine (l : Loop) (line : String) : IO Loop := do
   | "fhash" => return { l with st := { l.st with lastHash := some got } }
   | "pretrees" =>
     let pts := parsePretrees got
-    let mut l := { l with pretrees := pts, notes := none }
+    let mut l := { l with pretrees := pts, notes := none,
+                          preView := if l.viewFresh then l.lastView.map (fun v => (v, l.lastTreeReach)) else none }
     -- Layer T tie: the model's leaf edits on the committed tree must give the overlay the real
     -- transaction has built (shape and entries, page ids forgotten)
     match l.viewFresh, l.lastView, l.st.tx? (f.getD 1 "0").toNat! with
@@ -140,7 +146,7 @@ def stepLine (l : Loop) (line : String) : IO Loop := do
   | "fault" => return { l with faultArmed := got == "ok" }
   | "limit" => return { l with faultArmed := (f.getD 1 "inf") != "inf" }
   | "commit" =>
-    if got == "ok" then return { l with commitsSinceFile := l.commitsSinceFile + 1, viewFresh := false } else return { l with viewFresh := false }
+    if got == "ok" then return { l with commitsSinceFile := l.commitsSinceFile + 1, commitsSinceView := l.commitsSinceView + 1, viewFresh := false } else return { l with viewFresh := false }
   | "open" | "reopen" | "close" => return { l with proto := none, lastFile := none, commitsSinceFile := 0 }
   | "usefile" => return { l with viewFresh := false }
   | "begin" =>
@@ -182,22 +188,46 @@ def stepLine (l : Loop) (line : String) : IO Loop := do
           let post := toEntT v.tree
           if !(wfsb (K := Bytes) none none post) || (uniformB post).isNone || !(tightB (K := Bytes) none post) || !(nebT post) then
             return ← l.fail "INVDIFF" s!"op=[{lhs}] bucket=[{path}] the committed tree violates Sep/tightness/uniform-depth or has an empty branch"
+          let dirty := dirty || effDirty l.pretrees names
+          let touched := touchedKeys l.pretrees root names
           if dirty then
-            let mid := rebalanced pre notes
+            let mid := rebalanced pre notes touched
             if !(wfsb (K := Bytes) none none mid) || (uniformB mid).isNone || !(tightMB (K := Bytes) none mid) then
               return ← l.fail "INVDIFF" s!"op=[{lhs}] bucket=[{path}] the model tree after the rebalance replay violates Sep/tightness-at-untouched-pages/uniform-depth: {fmtShape mid}"
           let want := fmtShape (toEntT v.tree)
-          let pred := if dirty then predictBucket l.st.pagesize pre notes else pre
+          let pred := if dirty then predictBucket l.st.pagesize pre notes touched else pre
           let got' := fmtShape pred
           if got' != want then
             return ← l.fail "SHAPEDIFF" s!"op=[{lhs}] bucket=[{path}] model=[{got'}] file=[{want}]"
           l := { l with layerC := l.layerC + 1, layerCSteps := l.layerCSteps + (if dirty then (rbStepsFor pre notes).length else 0) }
-      l := { l with pretrees := [], notes := none }
+      -- Layer C → A: the tree pages this commit freed (old tree pages that are no longer tree pages) must be
+      -- exactly the pages the model says it frees, and it must have taken as many new pages as the model requests
+      match l.preView with
+      | some (old, oldReach) =>
+        if l.commitsSinceView == 1 then
+          let realFreed := sortNat (listDiff oldReach rep.treeReach)
+          let predFreed := sortNat (predictFreed l.st.pagesize l.pretrees notes root [] old).eraseDups
+          if realFreed != predFreed then
+            return ← l.fail "PAGEDIFF" s!"op=[{lhs}] freed pages: real-only={(listDiff realFreed predFreed).take 12} model-only={(listDiff predFreed realFreed).take 12}"
+          let realNew := (listDiff rep.treeReach oldReach).length
+          let predNew := (l.pretrees.map (fun (ps, _, pre) =>
+            let names := namesOf ps
+            match findView root names with
+            | none => 0
+            | some _ =>
+              if effDirty l.pretrees names then
+                (predictRequests l.st.pagesize (predictBucket l.st.pagesize pre notes (touchedKeys l.pretrees root names))).sum
+              else 0)).sum
+          if realNew != predNew then
+            return ← l.fail "PAGEDIFF" s!"op=[{lhs}] the commit took {realNew} new tree pages, the model requests {predNew}"
+          l := { l with pagesPredicted := l.pagesPredicted + 1 }
+      | none => pure ()
+      l := { l with pretrees := [], notes := none, preView := none }
     | _, _ => pure ()
     IO.println s!"FILE {l.cur} line={l.lineNo} numPages={rep.numPages} txId={rep.txId} free={rep.free} reach={rep.reach} size={rep.fileSize}"
     return { l with cnt := bump l.cnt "file/ok",
                     lastFile := some { reach := rep.reachPages, persisted := rep.freePages, numPages := rep.numPages, txId := rep.txId },
-                    lastView := rep.view, viewFresh := rep.view.isSome, reenc := l.reenc + rep.pagesReencoded }
+                    lastView := rep.view, viewFresh := rep.view.isSome, reenc := l.reenc + rep.pagesReencoded, lastTreeReach := rep.treeReach, commitsSinceView := 0 }
   | "flstate" =>
     match l.lastFile with
     | none => return l
